@@ -8,6 +8,7 @@ import (
 	"io"
 	"net"
 	"os"
+	"runtime"
 	"sync"
 	"time"
 )
@@ -32,6 +33,9 @@ type Conn struct {
 	onClose       func()
 	failWrite     error
 	local, remote addr
+
+	// YieldOnWrite makes Write yield the processor after delivering the bytes (set before use)
+	YieldOnWrite bool
 }
 
 // NewDatagram creates a packet-oriented connection (one Read = one datagram).
@@ -145,6 +149,11 @@ func (c *Conn) Write(b []byte) (int, error) {
 	copy(cp, b)
 	if c.onWrite != nil {
 		c.onWrite(cp)
+	}
+	if c.YieldOnWrite {
+		// a write to a real socket may block: let the other goroutines run in the middle of the caller's
+		// critical section (used by the concurrent multi-session runs)
+		runtime.Gosched()
 	}
 	return len(b), nil
 }
